@@ -199,6 +199,9 @@ class JacobianAssembly:
     __minimal_couplings: set[str]
     """The minimal couplings."""
 
+    __minimal_residuals: set[str]
+    """The residuals of the disciplines required by the last diff in-outs."""
+
     coupled_system: CoupledSystem
     """The coupled derivative system of residuals."""
 
@@ -247,6 +250,7 @@ class JacobianAssembly:
         self.disciplines = {}
         self.__last_diff_inouts = (set(), set())
         self.__minimal_couplings = set()
+        self.__minimal_residuals = set()
         self.coupled_system = CoupledSystem()
         self.__linear_solver_factory = LinearSolverLibraryFactory(use_cache=True)
 
@@ -614,6 +618,13 @@ class JacobianAssembly:
             # The state variables are not coupling variables, although they are inputs
             # and outputs of the disciplines with residuals.
             self.__minimal_couplings = minimal_couplings.difference(states)
+            # Only the disciplines required to differentiate the functions
+            # with respect to the variables are linearized with respect to their states.
+            self.__minimal_residuals = {
+                residual
+                for discipline in diff_ios_merged
+                for residual in discipline.io.residual_to_state_variable
+            }
         return self.__minimal_couplings
 
     def total_derivatives(
@@ -678,6 +689,17 @@ class JacobianAssembly:
             states,
             self.coupling_structure,
         )
+
+        # The residuals of the disciplines that are not required
+        # to differentiate the functions with respect to the variables
+        # do not belong to the system of residuals.
+        if residual_variables:
+            residual_variables = {
+                residual: state
+                for residual, state in residual_variables.items()
+                if residual in self.__minimal_residuals
+            }
+            states = list(residual_variables.values())
 
         # Exclude the non-numeric couplings from the coupling minimal list
         for discipline in self.coupling_structure.disciplines:
